@@ -328,14 +328,49 @@ impl World {
             }
             ["downgrade", h] => {
                 let Some(r) = self.strong(h) else { return false };
+                if self.erase.as_mut().map(|g| g.below(2) == 1).unwrap_or(false) {
+                    let c: Box<dyn rsactor::ActorControl> = (&r).into();
+                    let wc = c.downgrade();
+                    if wc.identity() != r.identity() || wc.is_alive() != ActorRef::downgrade(&r).is_alive() {
+                        log::handle("erased-downgrade-mismatch".into());
+                    }
+                }
                 log::handle(format!("new {} strong=false", self.handles.len()));
                 self.handles.push(Some(H::Weak(ActorRef::downgrade(&r))));
                 true
             }
             ["upgrade", h] => {
                 let Ok(i) = h.parse::<usize>() else { return false };
+                let erased = self.erase.as_mut().map(|g| g.below(3)).unwrap_or(0);
                 let up = match self.handles.get(i) {
-                    Some(Some(H::Weak(w))) => w.upgrade(),
+                    Some(Some(H::Weak(w))) => {
+                        let direct = w.upgrade();
+                        // the erased weak handles must agree with the direct upgrade (and hold nothing themselves)
+                        let agree = match erased {
+                            1 => {
+                                let wc: Box<dyn rsactor::WeakActorControl> = w.into();
+                                let u = wc.upgrade();
+                                let ok = u.is_some() == direct.is_some()
+                                    && u.as_ref().map(|c| c.identity()) == direct.as_ref().map(|r| r.identity())
+                                    && wc.identity() == w.identity();
+                                drop(u);
+                                ok
+                            }
+                            2 => {
+                                let wt: Box<dyn rsactor::WeakTellHandler<Msg>> = w.clone().into();
+                                let wt2 = wt.clone_boxed();
+                                let u = wt2.upgrade();
+                                let ok = u.is_some() == direct.is_some() && wt.as_weak_control().is_alive() == w.is_alive();
+                                drop(u);
+                                ok
+                            }
+                            _ => true,
+                        };
+                        if !agree {
+                            log::handle(format!("erased-upgrade-mismatch {i}"));
+                        }
+                        direct
+                    }
                     _ => return false,
                 };
                 match up {
@@ -349,9 +384,32 @@ impl World {
             }
             ["alive", h] => {
                 let Ok(i) = h.parse::<usize>() else { return false };
+                let erased = self.erase.as_mut().map(|g| g.below(3)).unwrap_or(0);
                 let b = match self.handles.get(i) {
-                    Some(Some(H::Strong(r))) => r.is_alive(),
-                    Some(Some(H::Weak(w))) => w.is_alive(),
+                    Some(Some(H::Strong(r))) => match erased {
+                        1 => {
+                            let c: Box<dyn rsactor::ActorControl> = r.into();
+                            let c2 = c.clone_boxed();
+                            drop(c);
+                            c2.is_alive()
+                        }
+                        2 => {
+                            let t: Box<dyn rsactor::AskHandler<Msg, u64>> = r.into();
+                            t.as_control().is_alive()
+                        }
+                        _ => r.is_alive(),
+                    },
+                    Some(Some(H::Weak(w))) => match erased {
+                        1 => {
+                            let c: Box<dyn rsactor::WeakActorControl> = w.into();
+                            c.clone_boxed().is_alive()
+                        }
+                        2 => {
+                            let t: Box<dyn rsactor::WeakAskHandler<Msg, u64>> = w.into();
+                            t.as_weak_control().is_alive()
+                        }
+                        _ => w.is_alive(),
+                    },
                     _ => return false,
                 };
                 log::handle(format!("alive {i} {b}"));
